@@ -21,6 +21,16 @@ LIB_SRCS = ["half.cpp", "ImathFun.cpp", "ImathColorAlgo.cpp", "ImathMatrixAlgo.c
 
 COMMON = ["-ffp-contract=off", "-fno-strict-aliasing", "-Wno-deprecated-declarations", "-pthread"]
 STD_FAST = ["-std=gnu++17"]
+def _cpu_has(flag):
+    try:
+        return (" %s " % flag) in open("/proc/cpuinfo").read()
+    except OSError:
+        return False
+
+
+# third configuration: C++11; -mfma (when the CPU has it) defines __FMA__ / FP_FAST_FMA / FP_FAST_FMAF, the macros a
+# hardware-FMA fast path would be keyed on; -ffp-contract=off keeps the compiler from fusing anything by itself
+STD_11 = ["-std=gnu++11"] + (["-mfma"] if _cpu_has("fma") else [])
 STD_SAN = ["-std=gnu++14"]  # Imath's own default (config/ImathSetup.cmake: IMATH_CXX_STANDARD 14)
 VARIANTS = {
     # name: (compiler, flags)
@@ -34,8 +44,10 @@ VARIANTS = {
     "arb_debug": ("clang++", ["-O1"] + STD_FAST + COMMON),
     # third configuration: the oldest language standard the library documents (C++11: IMATH_CPLUSPLUS_VERSION < 14
     # branches, non-constexpr IMATH_CONSTEXPR14 functions), asserts on; arbitrated by clang++ in the same mode
-    "std11": ("g++", ["-O1", "-std=gnu++11"] + COMMON),
-    "arb_std11": ("clang++", ["-O1", "-std=gnu++11"] + COMMON),
+    # -mfma (when the CPU has it) defines __FMA__ / FP_FAST_FMA / FP_FAST_FMAF, the macros a hardware-FMA fast path
+    # would be keyed on; -ffp-contract=off keeps the compiler from fusing anything by itself
+    "std11": ("g++", ["-O1"] + STD_11 + COMMON),
+    "arb_std11": ("clang++", ["-O1"] + STD_11 + COMMON),
     "fuzz": ("clang++", ["-O1", "-fsanitize=fuzzer,address,undefined", "-fno-sanitize-recover=undefined", "-DVP_FUZZ=1", "-std=gnu++20"] + COMMON),
 }
 LIBFLAGS_OVERRIDE = {"fuzz": ["-O1", "-fsanitize=fuzzer-no-link,address,undefined", "-fno-sanitize-recover=undefined", "-std=gnu++20"] + COMMON}
@@ -54,7 +66,9 @@ PROPS = {
     "C05": dict(tu="c05_products.cpp", san_scale=0.1, fuzz_s=60),
     "C06": dict(tu="c06_inverse.cpp", san_scale=0.1, fuzz_s=60),
     "C07": dict(tu="c07_exc.cpp", san_scale=0.1, fuzz_s=60),
-    "C08": dict(tu="c08_length.cpp", san_scale=0.1, fuzz_s=0),
+    "C08": dict(tu="c08_length.cpp", san_scale=0.1, fuzz_s=0,
+                extras=[dict(src="c08_constexpr23.cpp", flags=["-std=c++2b", "-O1"], compilers=["g++", "clang++"],
+                             what="C++23 configuration: constant-evaluated length2() / dot() / operator^ of literal vectors vs run-time evaluation of the same values")]),
     "C09": dict(tu="c09_transforms.cpp", san_scale=0.1, fuzz_s=0),
     "C10": dict(tu="c10_quat.cpp", san_scale=0.1, fuzz_s=60),
     "C11": dict(tu="c11_euler.cpp", san_scale=0.1, fuzz_s=0),
@@ -228,6 +242,8 @@ C02_CONFIGS = [
     ("clangxx17-f16c", "clang++", "c++", ["-std=gnu++17", "-mf16c"], "default"),
     ("gcc-c11-f16c", "gcc", "c", ["-std=gnu11", "-mf16c"], "default"),
     ("gxx17-f16c-notable", "g++", "c++", ["-std=gnu++17", "-mf16c", "-DIMATH_HALF_NO_LOOKUP_TABLE"], "default"),
+    ("gxx17-f16c-fpexc", "g++", "c++", ["-std=gnu++17", "-mf16c", "-DIMATH_HALF_ENABLE_FP_EXCEPTIONS"], "default"),
+    ("gcc-c11-f16c-fpexc", "gcc", "c", ["-std=gnu11", "-mf16c", "-DIMATH_HALF_ENABLE_FP_EXCEPTIONS"], "default"),
 ]
 
 
@@ -476,7 +492,7 @@ def run_cpp(prop, tier, seed, only=None):
                     except BuildError as e:
                         rc2, out2 = 2, str(e)[-300:]
                     if rc2 == 1:
-                        violations.append((f["replay"], "%s: %s | case: %s [only in the %s configuration; confirmed by both compilers]" % (f["key"], f["msg"], f["case"], {"fast": "asserts-on -std=gnu++17", "san": "-DNDEBUG -std=gnu++14", "std11": "asserts-on -std=gnu++11"}[name])))
+                        violations.append((f["replay"], "%s: %s | case: %s [only in the %s configuration; confirmed by both compilers]" % (f["key"], f["msg"], f["case"], {"fast": "asserts-on -std=gnu++17", "san": "-DNDEBUG -std=gnu++14", "std11": "asserts-on " + " ".join(STD_11)}[name])))
                     else:
                         errors.append("toolchain disagreement on %s (found by %s binary, other binary rc=%d, arbitration rc=%d): %s" % (f["replay"], name, rc, rc2, f["msg"]))
     # --- 3b. extra configuration programs (stand-alone, print FAIL lines)
